@@ -9,8 +9,7 @@ Import ListNotations.
 Open Scope nat_scope.
 Set Default Proof Using "All".
 
-Definition the_crossing (fb : flat) : list nat :=
-  match fl_crossings fb with [c] => c | _ => [] end.
+Definition the_crossing (fb : flat) : list nat := hd [] (fl_crossings fb).
 
 Lemma nodupb_NoDup xs : nodupb xs = true -> NoDup xs.
 Proof.
@@ -85,7 +84,33 @@ Qed.
 Lemma filter_map_comm {A B} (g : A -> B) (p : B -> bool) l : filter p (map g l) = map g (filter (fun x => p (g x)) l).
 Proof. induction l as [|x t IH]; [reflexivity|]. cbn. destruct (p (g x)); cbn; rewrite IH; reflexivity. Qed.
 
-Definition the_weight (fb : flat) : nat := match fl_weights fb with [w] => w | _ => 0 end.
+Definition the_weight (fb : flat) : nat := hd 0 (fl_weights fb).
+
+Lemma forallb_eqb_all a l : forallb (Nat.eqb a) l = true -> forall x, In x l -> x = a.
+Proof. intros H x Hx. rewrite forallb_forall in H. specialize (H x Hx). apply Nat.eqb_eq in H. congruence. Qed.
+
+Lemma first_index_of_spec c cs : In c cs -> forall a, exists j, first_index_of c cs a = Some (a + j) /\ j < length cs.
+Proof.
+  induction cs as [|d t IH]; intros H a; [destruct H|]. cbn [first_index_of].
+  destruct (nat_list_eqb d c) eqn:E.
+  - exists 0. split; [f_equal; lia | cbn; lia].
+  - destruct H as [H | H]; [subst; rewrite nat_list_eqb_refl in E; discriminate|].
+    destruct (IH H (S a)) as [j [Hj Hl]]. exists (S j). split; [rewrite Hj; f_equal; lia | cbn; lia].
+Qed.
+
+Lemma fold_max_zero l : (forall x, In x l -> x = 0) -> fold_left Nat.max l 0 = 0.
+Proof.
+  induction l as [|x t IH]; intros H; [reflexivity|]. cbn [fold_left]. rewrite (H x (or_introl eq_refl)). cbn [Nat.max].
+  apply IH. intros y Hy. apply H. right. exact Hy.
+Qed.
+
+(** the weight the block attaches to a crossing: that of the first crossing equal to it *)
+Definition cw_of (fb : flat) (ci : list nat) : nat :=
+  match first_index_of ci (fl_crossings fb) 0 with
+  | Some j => nth j (fl_weights fb) 0
+  | None => nth 0 (rev (fl_weights fb)) 0
+  end.
+
 
 Lemma prodZl_fold_right l : prodZl l = fold_right Z.mul 1%Z l.
 Proof.
@@ -133,13 +158,21 @@ Definition f0_s : nat := list_sum (map f0_cw f0_cprod).
 Definition f0_C : nat := f0_s * the_weight fb.
 
 Record f0_facts : Prop := {
-  f0_crossings : fl_crossings fb = [c];
-  f0_sustains : fl_sustains fb = [1];
-  f0_weights : fl_weights fb = [w];
+  f0_crossings : fl_crossings fb = c :: tl (fl_crossings fb);
+  f0_cross_plain : forall ci, In ci (fl_crossings fb) -> NoDup ci /\ forall f, In f ci -> f < n;
+  f0_sustains : forall x, In x (fl_sustains fb) -> x = 1;
+  f0_sustains_len : length (fl_sustains fb) = length (fl_crossings fb);
+  f0_weights : fl_weights fb = w :: tl (fl_weights fb);
+  f0_weights_len : length (fl_weights fb) = length (fl_crossings fb);
+  f0_weights_pos : forall x, In x (fl_weights fb) -> 0 < x;
   f0_wpos : 0 < w;
-  f0_preambles : fl_preambles fb = [0];
+  f0_preambles : forall x, In x (fl_preambles fb) -> x = 0;
+  f0_preambles_len : length (fl_preambles fb) = length (fl_crossings fb);
   f0_alpre : fl_alignment_preamble fb = 0;
-  f0_sizes : fl_sizes fb = [f0_s];
+  f0_sizes : fl_sizes fb = f0_s :: tl (fl_sizes fb);
+  f0_sizes_len : length (fl_sizes fb) = length (fl_crossings fb);
+  f0_size_ok : forall ci si, In (ci, si) (combine (fl_crossings fb) (fl_sizes fb)) ->
+               si = list_sum (map (fun ls => combo_weight fb (combine ci ls)) (allowed_combos fb ci)) /\ 0 < si;
   f0_spos : 0 < f0_s;
   f0_nodup : NoDup c;
   f0_range : forall f, In f c -> f < n;
@@ -149,46 +182,66 @@ Record f0_facts : Prop := {
   f0_basic : forall fd, In fd (fl_design fb) -> ff_window fd = None /\ ff_complex fd = false;
   f0_constraints : forall k, In k (fl_constraints fb) -> constraint_f1 fb k = true;
   f0_nonempty : forall f, f < n -> 0 < length (f0_L f);
-  f0_trials : 0 < fl_trials fb \/ no_rejecting_constraints fb = true
+  f0_trials : 0 < fl_trials fb \/ (no_rejecting_constraints fb = true /\ length (fl_crossings fb) = 1)
 }.
 
 Lemma f0_unpack : f0_facts.
 Proof.
-  unfold frag2 in HF.
-  apply andb_prop in HF. destruct HF as [HFT HTpos].
-  apply andb_prop in HFT. destruct HFT as [HF0 Hne].
-  apply andb_prop in HF0. destruct HF0 as [HF1 Hsize].
-  apply andb_prop in HF1. destruct HF1 as [HF2 Hgeo].
-  apply andb_prop in HF2. destruct HF2 as [HF3 Hunit].
-  apply andb_prop in HF3. destruct HF3 as [HF4 Hbasic].
-  apply andb_prop in HF4. destruct HF4 as [HF5 Hact].
-  apply andb_prop in HF5. destruct HF5 as [HF6 Hexcl].
-  apply andb_prop in HF6. destruct HF6 as [Hcross Hcons].
-  unfold single_plain_crossing in Hcross. unfold size_matches2 in Hsize. unfold weights_ok in Hunit.
-  unfold plain_geometry in Hgeo. unfold exclude_consistent in Hexcl.
-  unfold f0_s, f0_cw, f0_q, f0_cprod, the_crossing, the_weight.
-  destruct (fl_crossings fb) as [|c0 [|? ?]] eqn:Ec; try discriminate.
-  destruct (fl_sustains fb) as [|[|[|?]] [|? ?]] eqn:Es; try discriminate.
-  apply andb_prop in Hcross. destruct Hcross as [Hnd Hrange].
-  destruct (fl_weights fb) as [|w0 [|? ?]] eqn:Ew; try discriminate.
-  destruct (fl_preambles fb) as [|[|?] [|? ?]] eqn:Ep; try discriminate.
-  destruct (fl_sizes fb) as [|s0 [|? ?]] eqn:Ez; try discriminate.
-  apply andb_prop in Hexcl. destruct Hexcl as [Hex1 Hex2].
+  pose proof HF as H0. unfold frag2 in H0.
+  apply andb_prop in H0. destruct H0 as [H0 HTpos].
+  apply andb_prop in H0. destruct H0 as [H0 Hne].
+  apply andb_prop in H0. destruct H0 as [H0 Hbasic].
+  apply andb_prop in H0. destruct H0 as [H0 Hact].
+  apply andb_prop in H0. destruct H0 as [H0 Hexcl].
+  apply andb_prop in H0. destruct H0 as [Hpc Hcons].
+  unfold plain_crossings in Hpc.
+  apply andb_prop in Hpc. destruct Hpc as [Hpc Hszok].
+  apply andb_prop in Hpc. destruct Hpc as [Hpc Hszlen].
+  apply andb_prop in Hpc. destruct Hpc as [Hpc Halpre].
+  apply andb_prop in Hpc. destruct Hpc as [Hpc Hpre0].
+  apply andb_prop in Hpc. destruct Hpc as [Hpc Hprelen].
+  apply andb_prop in Hpc. destruct Hpc as [Hpc Hwpos].
+  apply andb_prop in Hpc. destruct Hpc as [Hpc Hwlen].
+  apply andb_prop in Hpc. destruct Hpc as [Hpc Hsu1].
+  apply andb_prop in Hpc. destruct Hpc as [Hpc Hsulen].
+  apply andb_prop in Hpc. destruct Hpc as [Hk Hplain].
+  apply Nat.ltb_lt in Hk. apply Nat.eqb_eq in Hsulen. apply Nat.eqb_eq in Hwlen. apply Nat.eqb_eq in Hprelen.
+  apply Nat.eqb_eq in Hszlen. apply Nat.eqb_eq in Halpre.
+  unfold exclude_consistent in Hexcl. apply andb_prop in Hexcl. destruct Hexcl as [Hex1 Hex2].
   destruct (fl_excluded_derived fb) eqn:Eed; try discriminate.
-  apply andb_prop in Hsize. destruct Hsize as [Hsize Hpos].
-  apply Nat.eqb_eq in Hgeo. apply Nat.eqb_eq in Hsize. apply Nat.ltb_lt in Hpos. apply Nat.ltb_lt in Hunit. subst s0.
-  constructor; unfold f0_s, f0_cw, f0_q, f0_cprod, the_crossing, the_weight; rewrite ?Ec, ?Ew; try reflexivity; try assumption.
-  - apply nodupb_NoDup. exact Hnd.
-  - intros f Hf. rewrite forallb_forall in Hrange. apply Nat.ltb_lt. apply Hrange. exact Hf.
+  assert (Hplain' : forall ci, In ci (fl_crossings fb) -> NoDup ci /\ forall f, In f ci -> f < n).
+  { intros ci Hci. rewrite forallb_forall in Hplain. specialize (Hplain ci Hci). unfold crossing_plain in Hplain.
+    apply andb_prop in Hplain. destruct Hplain as [H1 H2]. split; [apply nodupb_NoDup; exact H1|].
+    intros f Hf. rewrite forallb_forall in H2. apply Nat.ltb_lt. apply H2. exact Hf. }
+  assert (Hsz' : forall ci si, In (ci, si) (combine (fl_crossings fb) (fl_sizes fb)) ->
+               si = list_sum (map (fun ls => combo_weight fb (combine ci ls)) (allowed_combos fb ci)) /\ 0 < si).
+  { intros ci si Hin. rewrite forallb_forall in Hszok. specialize (Hszok _ Hin). unfold crossing_size_ok in Hszok.
+    cbn [fst snd] in Hszok. apply andb_prop in Hszok. destruct Hszok as [H1 H2]. apply Nat.eqb_eq in H1. apply Nat.ltb_lt in H2. auto. }
+  assert (Hwp : forall x, In x (fl_weights fb) -> 0 < x).
+  { intros x Hx. rewrite forallb_forall in Hwpos. apply Nat.ltb_lt. apply Hwpos. exact Hx. }
+  unfold f0_s, f0_cw, f0_q, f0_cprod, the_crossing, the_weight.
+  destruct (fl_crossings fb) as [|c0 ocs] eqn:Ec; [cbn in Hk; lia|].
+  destruct (fl_weights fb) as [|w0 ows] eqn:Ew; [cbn in Hwlen; lia|].
+  destruct (fl_sizes fb) as [|s0 oss] eqn:Ez; [cbn in Hszlen; lia|].
+  destruct (Hsz' c0 s0 (or_introl eq_refl)) as [Es0 Hs0]. cbn [hd tl].
+  constructor; unfold f0_s, f0_cw, f0_q, f0_cprod, the_crossing, the_weight; rewrite ?Ec, ?Ew, ?Ez; cbn [hd tl]; try reflexivity; try assumption.
+  - apply (forallb_eqb_all 1). exact Hsu1.
+  - apply Hwp. left. reflexivity.
+  - apply (forallb_eqb_all 0). exact Hpre0.
+  - rewrite Es0. reflexivity.
+  - rewrite <- Es0. exact Hs0.
+  - apply (Hplain' c0). left. reflexivity.
+  - apply (Hplain' c0). left. reflexivity.
   - apply pairs_eqb_eq. exact Hex1.
   - apply nat_list_eqb_eq. exact Hact.
   - intros fd Hfd. unfold all_basic in Hbasic. rewrite forallb_forall in Hbasic.
     specialize (Hbasic fd Hfd). destruct (ff_window fd); [discriminate|].
     apply negb_true_iff in Hbasic. auto.
-  - intros k Hk. rewrite forallb_forall in Hcons. apply Hcons. exact Hk.
+  - intros k Hk0. rewrite forallb_forall in Hcons. apply Hcons. exact Hk0.
   - intros f Hf. unfold free_levels_nonempty in Hne. rewrite forallb_forall in Hne.
     apply Nat.ltb_lt. apply Hne. apply in_seq. lia.
-  - apply orb_prop in HTpos. destruct HTpos as [H | H]; [left; apply Nat.ltb_lt; exact H | right; exact H].
+  - apply orb_prop in HTpos. destruct HTpos as [H | H]; [left; apply Nat.ltb_lt; exact H|].
+    right. apply andb_prop in H. destruct H as [H1 H2]. apply Nat.eqb_eq in H2. split; assumption.
 Qed.
 
 Lemma f0_q_pos : 0 < f0_q.
@@ -318,6 +371,16 @@ Proof. intros H. rewrite <- f0_p_C, <- f0_cws_length. apply unw_C. exact H. Qed.
 Lemma f0_main_factors : main_factors fb 0 = ROk c.
 Proof. unfold main_factors, no_crossings. rewrite (f0_crossings f0_unpack). reflexivity. Qed.
 
+Lemma f0_main_crossing : main_crossing fb = ROk 0.
+Proof.
+  unfold main_crossing. pose proof (f0_sustains f0_unpack) as H1. pose proof (f0_sustains_len f0_unpack) as H2.
+  rewrite (f0_crossings f0_unpack) in H2. destruct (fl_sustains fb) as [|x t]; [cbn in H2; lia|].
+  rewrite (H1 x (or_introl eq_refl)). reflexivity.
+Qed.
+
+Lemma f0_no_crossings : no_crossings fb = false.
+Proof. unfold no_crossings. rewrite (f0_crossings f0_unpack). reflexivity. Qed.
+
 Lemma f0_cnc : crossed_noncomplex fb c = c.
 Proof. unfold crossed_noncomplex. apply filter_all. intros f _. rewrite f0_not_complex. reflexivity. Qed.
 
@@ -364,17 +427,37 @@ Qed.
 Lemma f0_derived_factors : derived_factors fb = [].
 Proof. unfold derived_factors. apply filter_none. intros f _. apply f0_not_derived. Qed.
 
+Lemma f0_block_weight_of ci : In ci (fl_crossings fb) -> block_crossing_weight fb ci = ROk (Z.of_nat (cw_of fb ci)).
+Proof.
+  intros Hci. unfold block_crossing_weight, cw_of. destruct (first_index_of_spec ci _ Hci 0) as [j [Hj Hl]].
+  rewrite Hj. cbn [Nat.add]. rewrite <- (f0_weights_len f0_unpack) in Hl.
+  rewrite (nth_error_nth' _ 0 Hl). reflexivity.
+Qed.
+
+Lemma f0_cw_of_main : cw_of fb c = w.
+Proof.
+  unfold cw_of. rewrite (f0_crossings f0_unpack). cbn [first_index_of]. rewrite nat_list_eqb_refl.
+  rewrite (f0_weights f0_unpack). reflexivity.
+Qed.
+
 Lemma f0_block_weight : block_crossing_weight fb c = ROk (Z.of_nat w).
 Proof.
-  unfold block_crossing_weight. rewrite (f0_crossings f0_unpack). cbn [first_index_of].
-  rewrite nat_list_eqb_refl. rewrite (f0_weights f0_unpack). reflexivity.
+  rewrite f0_block_weight_of by (rewrite (f0_crossings f0_unpack); left; reflexivity). rewrite f0_cw_of_main. reflexivity.
+Qed.
+
+Lemma f0_post_preamble : post_preamble_size fb = 0.
+Proof.
+  unfold post_preamble_size. rewrite (f0_alpre f0_unpack). rewrite fold_max_zero by (apply (f0_preambles f0_unpack)). reflexivity.
+Qed.
+
+Lemma f0_block_preamble_at i : i < length (fl_crossings fb) -> block_preamble_size fb i = ROk 0%Z.
+Proof.
+  intros Hi. unfold block_preamble_size. rewrite f0_post_preamble. rewrite <- (f0_preambles_len f0_unpack) in Hi.
+  rewrite (nth_error_nth' _ 0 Hi). rewrite (f0_preambles f0_unpack _ (nth_In _ 0 Hi)). destruct (fl_alignment fb); reflexivity.
 Qed.
 
 Lemma f0_block_preamble : block_preamble_size fb 0 = ROk 0%Z.
-Proof.
-  unfold block_preamble_size, post_preamble_size.
-  rewrite (f0_preambles f0_unpack), (f0_alpre f0_unpack). destruct (fl_alignment fb); reflexivity.
-Qed.
+Proof. apply f0_block_preamble_at. rewrite (f0_crossings f0_unpack). cbn. lia. Qed.
 
 Definition f0_moc : moc := if f0_unw then Uniform 1 else Counters f0_cws.
 
@@ -383,25 +466,36 @@ Definition f0_base : enum_base :=
      eb_cweights := f0_cws; eb_unweighted := f0_unw;
      eb_sources := [[]]; eb_src_factors := []; eb_m := 1%Z; eb_csize := Z.of_nat f0_C;
      eb_moc := f0_moc; eb_sorted_derived := []; eb_sorted_ucd := []; eb_has_cc := false;
-     eb_crossing_sizes := [Z.of_nat f0_s]; eb_preamble_sizes := [0%Z]; eb_crossing_weights := [Z.of_nat w];
+     eb_crossing_sizes := map Z.of_nat (fl_sizes fb);
+     eb_preamble_sizes := map (fun _ => 0%Z) (seq 0 (length (fl_crossings fb)));
+     eb_crossing_weights := map (fun ci => Z.of_nat (cw_of fb ci)) (fl_crossings fb);
      eb_preamble := 0%Z |}.
 
 Lemma f0_enum_base : enum_base_of fb = ROk f0_base.
 Proof.
-  unfold enum_base_of. unfold main_crossing. rewrite (f0_sustains f0_unpack). cbn [find_main Nat.eqb rbind].
+  unfold enum_base_of. rewrite f0_main_crossing. cbn [rbind].
   rewrite f0_main_factors. cbn [rbind]. rewrite f0_cnc, f0_crossing_instances.
-  unfold no_crossings. rewrite (f0_crossings f0_unpack). rewrite f0_block_weight. cbn [rbind].
+  rewrite f0_no_crossings. rewrite f0_block_weight. cbn [rbind].
   fold f0_cws. change (forallb (Z.eqb 1) f0_cws) with f0_unw.
   rewrite fold_add_zsum, f0_cws_sum.
   rewrite f0_ubs. rewrite f0_crossed_complex. cbn [count_complex_crossing_instances].
-  cbn [length seq rmap]. rewrite f0_block_preamble. cbn [rbind rmap]. rewrite f0_block_weight. cbn [rbind].
-  rewrite (f0_sizes f0_unpack). cbn [map nth_error of_opt rbind].
+  rewrite (rmap_ok_map _ (fun _ => 0%Z) (seq 0 (length (fl_crossings fb))))
+    by (intros i Hi; apply in_seq in Hi; apply f0_block_preamble_at; lia).
+  cbn [rbind].
+  rewrite (rmap_ok_map _ (fun ci => Z.of_nat (cw_of fb ci)) (fl_crossings fb)) by (intros ci Hci; apply f0_block_weight_of; exact Hci).
+  cbn [rbind].
+  rewrite (f0_sizes f0_unpack) at 1. cbn [map nth_error of_opt rbind].
+  rewrite (f0_crossings f0_unpack) at 1. cbn [map nth_error of_opt rbind]. rewrite f0_cw_of_main.
   replace (Z.of_nat f0_s * Z.of_nat w =? (0 + Z.of_nat f0_C) * 1)%Z with true
     by (symmetry; apply Z.eqb_eq; unfold f0_C; lia).
-  cbn [rbind]. rewrite f0_derived_factors, f0_ucd. cbn [stable_sort fold_right].
+  cbn [rbind].
+  rewrite (f0_crossings f0_unpack) at 1. cbn [length seq map nth_error of_opt rbind].
+  rewrite f0_derived_factors, f0_ucd. cbn [stable_sort fold_right].
   assert (Hmap : map (fun x : Z => (x * 1)%Z) f0_cws = f0_cws).
   { rewrite <- (map_id f0_cws) at 2. apply map_ext. intros x. lia. }
-  rewrite Hmap. unfold f0_base, f0_moc. f_equal. f_equal; try reflexivity; try lia.
+  rewrite Hmap. unfold f0_base, f0_moc. f_equal.
+  rewrite (f0_crossings f0_unpack), (f0_sizes f0_unpack). cbn [length seq map].
+  f_equal; try reflexivity; try lia.
 Qed.
 
 (** ** solution counting *)
